@@ -316,6 +316,13 @@ func (e *Exec) load(st *State, fr *Frame, p *PtrV, pos token.Pos) Value {
 	}
 	l := e.locOf(p)
 	v := st.LoadLoc(l)
+	// the sentinel errors of package io are non-nil and distinct wherever they are read (code and spec functions)
+	if strings.HasPrefix(l.Key, "G:io.EOF:") || strings.HasPrefix(l.Key, "G:io.ErrUnexpectedEOF:") {
+		func() {
+			defer func() { recover() }()
+			e.ioEOF(st, "ErrUnexpectedEOF")
+		}()
+	}
 	if unresolvedLoad(l, v) {
 		e.assumeValid(st, l.T, v)
 	} else if os.Getenv("GOVC_DEBUG") == "6" && e.discovery == 0 {
